@@ -77,7 +77,8 @@ func ReachesAvoidingFrom(start *ssa.BasicBlock, startIdx int, target ssa.Instruc
 func Returns(fn *ssa.Function) []*ssa.Return {
 	var out []*ssa.Return
 	for _, b := range fn.Blocks {
-		if len(b.Instrs) == 0 {
+		if len(b.Instrs) == 0 || b == fn.Recover {
+			// the recover block of a function with defers only re-reads the result cells
 			continue
 		}
 		if r, ok := b.Instrs[len(b.Instrs)-1].(*ssa.Return); ok {
